@@ -1,6 +1,6 @@
 """Per-structure pipelines (E1 model check, E2 replay, E3 traces, P adjudication) and the
 property registry."""
-import json, os, re, shutil, time
+import json, math, os, re, shutil, time
 import vlib
 from vlib import log, ToolError
 
@@ -278,7 +278,7 @@ def std_e2(ctx, module, consts, tag, pspec, wname, tspec=None, tconsts=None, pai
     return stats
 
 
-def std_e3(ctx, tag, pspec, wname, drive_tag=None, drive_args=(), sample=None, pconsts=None, tspec=None, tconsts=None):
+def std_e3(ctx, tag, pspec, wname, drive_tag=None, drive_args=(), sample=None, pconsts=None, tspec=None, tconsts=None, tgroup=None, tlabel=None):
     """Generic E3: the harness' driver writes scenarios, the scenario runner executes them, TLC judges."""
     w = ctx.sub(wname)
     scf = os.path.join(w, "scenarios.ndjson")
@@ -296,7 +296,15 @@ def std_e3(ctx, tag, pspec, wname, drive_tag=None, drive_args=(), sample=None, p
     ctx.judged += n
     add_rejects(ctx, rej, p, tag, pspec, scenarios=scf, pconsts=pconsts)
     sample_records(ctx, p, 1, sample)
-    if tspec:
+    if tspec and tgroup:
+        # configurations (hence TLC constants) change per scenario: one TLC run per group of scenarios
+        nm, drift, ng = vlib.mvalidate_grouped(tspec, m, w, tgroup[0], tgroup[1])
+        ctx.mvalidated += nm
+        ctx.drift += len(drift)
+        if drift:
+            ctx.drift_notes.append({"%s_scenario_calls_not_reproduced_by_spec" % tag: drift[:5]})
+        ctx.extra.setdefault("m_level_trace_validation", []).append({"structure": tlabel or tag, "configurations": ng, "calls": nm, "not_reproduced": len(drift)})
+    elif tspec:
         nm, drift = vlib.mvalidate(tspec, tconsts, m, w)
         ctx.mvalidated += nm
         ctx.drift += len(drift)
@@ -786,8 +794,13 @@ def run_lossy(ctx):
         c = {"Width": w, "NE": ne, "NMax": nmax, "D": 12, "EMIT": "TRUE"}
         std_e2(ctx, "MC_Lossy", c, "lc", "P_Lossy", "lc_%d_%d" % (w, ne), reps=1, max_alt=400, sample='"prunes"',
                label={"structure": "LossyCounter", "width": w, "symbols": ne, "max_stream": nmax})
+    # E3 with M-level trace validation (code -> spec) of every recorded call, grouped by window width
+    def lc_width(c):
+        if c.get("ne", 999) > 80:
+            return None
+        return (c["width"],) if "width" in c else (int(math.ceil(1.0 / (c["eps_num"] / c["eps_den"]))),)   # the code's own float expression
     std_e3(ctx, "lc", "P_Lossy", "lc_e3", drive_args=["--scenarios", "30" if ctx.quick else "400", "--max-n", "3000" if ctx.quick else "40000"],
-           sample='"tracked"')
+           sample='"tracked"', tspec="Trace_Lossy", tgroup=(lc_width, lambda k: {"Width": k[0]}), tlabel="LossyCounter")
     # unbounded-history extra (any stream length, width 3, four symbols): inductive invariant under Apalache
     apalache_inductive(ctx, "LossyInd", ["IndInv"], "Prop")
 
